@@ -216,6 +216,12 @@ func c02Case(c *Ctx) {
 		return
 	}
 	tc := charTreeCaseFor(c.Tier, c.Seed, c.Case)
+	c02Tree(c, tc, "")
+}
+
+// c02Tree explores one character recipe completely and compares output masses with the reference set
+// of valid strings. prefix is put in front of the violation classes (C01 reuses this monitor).
+func c02Tree(c *Ctx, tc charTreeCase, prefix string) {
 	rec := tc.Rec
 	sem := oracle.CharSemOf(rec)
 	if tc.Trials > 0 {
@@ -278,7 +284,7 @@ func c02Case(c *Ctx) {
 	c.Count("outputs_observed", int64(npw))
 	for s := range mass {
 		if !V[s] {
-			c.Violate("output-outside-valid-set", fmt.Sprintf("recipe %s returned %q which the recipe does not allow", descChar(rec), s),
+			c.Violate(prefix+"output-outside-valid-set", fmt.Sprintf("recipe %s returned %q which the recipe does not allow", descChar(rec), s),
 				map[string]interface{}{"recipe": descChar(rec), "output": s, "mass": ratString(mass[s])})
 			return
 		}
@@ -304,7 +310,7 @@ func c02Case(c *Ctx) {
 		if min.Sign() == 0 && res.Complete {
 			class = "valid-string-unreachable"
 		}
-		c.Violate(class, fmt.Sprintf("recipe %s: P(%q)=%s but P(%q)<=%s (unresolved mass %s, %d leaves)", descChar(rec), maxS, ratString(max), minS, ratString(bound), ratString(res.Unresolved), res.Leaves),
+		c.Violate(prefix+class, fmt.Sprintf("recipe %s: P(%q)=%s but P(%q)<=%s (unresolved mass %s, %d leaves)", descChar(rec), maxS, ratString(max), minS, ratString(bound), ratString(res.Unresolved), res.Leaves),
 			map[string]interface{}{"recipe": descChar(rec), "max_trials": tc.Trials, "likelier": maxS, "likelier_mass": ratString(max), "rarer": minS, "rarer_mass_upper_bound": ratString(bound)})
 		return
 	}
